@@ -16,6 +16,11 @@ impl Sleep {
         ensures final(self).deadline() == old(self).deadline(), (r is Ready) <==> now_spec() >= old(self).deadline(),
                 final(self).parked() == (r is Pending),
     { unimplemented!() }
+    /// Sleep::is_elapsed: true only once the timer driver has FIRED this entry — so `true` implies the deadline has
+    /// passed, but `false` says nothing (a Sleep that was never polled is not registered and reports `false` however
+    /// late it is).  A pure query: it registers nobody.
+    #[verifier::external_body]
+    pub fn is_elapsed(&self) -> (r: bool) ensures r ==> now_spec() >= self.deadline() { unimplemented!() }
 }
 #[verifier::external_body]
 pub fn sleep(d: Duration) -> (r: Sleep)
